@@ -62,6 +62,7 @@ type Contract struct {
 	Requires   []*Clause
 	Ensures    []*Clause
 	Olds       []*OldBinding
+	Def        *Clause     // `ensures result == E`: E as a function of the parameters (used for calls in specifications)
 	Logicals   [][2]string // logical variables (name, type): the contract holds for every value of them
 	Loops      map[int]*LoopSpec
 	ModNothing bool
@@ -76,6 +77,7 @@ type Contract struct {
 	NonNil     bool // all pointer parameters are required to be non-nil
 	Exhaustive bool // decided by running the real function on every input of its (small) domain
 	Calls      []*CallSpec // obligations at call sites inside the function
+	Split      bool        // prove postconditions separately for each way into a return
 	NoSafety   bool        // do not generate safety obligations (absence of panics is assumed)
 	NoConn     bool        // assumed not to touch the ghost state of connections
 	SweepFrame bool        // default frame from a sweep with option frame: pointer parameters and fresh objects only
@@ -419,6 +421,10 @@ func parseContractFile(rel, src string) (*pkgSpec, error) {
 				}
 			case "nosafety":
 				cur.NoSafety = true
+			case "split":
+				// postconditions are proved once per edge into a returning block (a
+				// case split along the last branching, e.g. the arms of a switch)
+				cur.Split = true
 			case "nonnil":
 				cur.NonNil = true
 			case "exhaustive":
@@ -958,6 +964,22 @@ var _ = verif_fresh
 		}
 		for k, cl := range c.Ensures {
 			emit(cl, fmt.Sprintf("verif_%s_post%d", c.ID, k), join(plist, rlist, strings.Join(oldParams, ", ")), "bool")
+			// a clause `result == E` over the parameters alone defines the result: a
+			// call of the function inside a specification can be replaced by E
+			if c.Def == nil && !c.IsLemma && len(c.Logicals) == 0 && len(c.Olds) == 0 {
+				if sig, ok := sigs[c.Key]; ok && len(sig.results) == 1 && sig.rnames[0] == "result" {
+					if ex, err := parser.ParseExpr(desugar(cl.Text)); err == nil {
+						if be, ok := ex.(*ast.BinaryExpr); ok && be.Op == token.EQL {
+							if id, ok := be.X.(*ast.Ident); ok && id.Name == "result" && !mentionsIdent(be.Y, "result") {
+								d := &Clause{Text: nodeStr(token.NewFileSet(), be.Y), Line: cl.Line}
+								d.FnName = fmt.Sprintf("verif_%s_def", c.ID)
+								fmt.Fprintf(&body, "\n// %s definition line %d\nfunc %s(%s) %s {\n\treturn %s\n}\n", c.Key, cl.Line, d.FnName, plistP, sig.results[0], d.Text)
+								c.Def = d
+							}
+						}
+					}
+				}
+			}
 		}
 		if c.AllocExpr != nil {
 			emit(c.AllocExpr, fmt.Sprintf("verif_%s_alloc", c.ID), plistP, "int")
@@ -1062,4 +1084,15 @@ func usesIdent(code, name string) bool {
 		}
 		idx = j + 1
 	}
+}
+
+func mentionsIdent(e ast.Expr, name string) bool {
+	found := false
+	ast.Inspect(e, func(n ast.Node) bool {
+		if id, ok := n.(*ast.Ident); ok && id.Name == name {
+			found = true
+		}
+		return true
+	})
+	return found
 }
